@@ -97,7 +97,22 @@ def case_naturals(case):
     D = (C * occ) @ C.T
     D = (D + D.T) / 2
     viols = []
-    coeffs, occs = derive_naturals(D.copy(), S.copy())
+
+    def layout(x):
+        """The same matrix in the memory layout of this repetition: C order, Fortran order, transposed view."""
+        mode = case["rep"] % 3
+        if mode == 0:
+            return x.copy()
+        if mode == 1:
+            return np.asfortranarray(x)
+        return x.T.copy().T
+
+    Dx, Sx = layout(D), layout(S)
+    coeffs, occs = derive_naturals(Dx, Sx)
+    # the matrices the caller holds are still the matrices that were analysed
+    if not (np.array_equal(Dx, D) and np.array_equal(Sx, S)):
+        viols.append(_v("naturals-input-modified", f"derive_naturals changed its {'density' if not np.array_equal(Dx, D) else 'overlap'} matrix argument "
+                        f"(n={n}, layout mode {case['rep'] % 3}): the returned orbitals no longer describe the matrix the caller holds"))
     coeffs = np.asarray(coeffs)
     occs = np.asarray(occs)
     tol = 1e2 * np.finfo(float).eps * cond**2 * max(1.0, np.abs(occ).max()) + 1e-11
@@ -119,8 +134,9 @@ def case_naturals(case):
         if np.abs(rec - D).max() > tol * max(1.0, scale) * cond**0.5 * 10:
             viols.append(_v("naturals-reconstruct", f"C n C^T differs from the density matrix by {np.abs(rec - D).max():.2e}"))
     expect_accept = (occ.min() >= -eps) and (occ.max() <= occ_max + eps)
+    Dx, Sx = layout(D), layout(S)
     try:
-        check_dm(D.copy(), S.copy(), eps=eps, occ_max=occ_max)
+        check_dm(Dx, Sx, eps=eps, occ_max=occ_max)
         accepted = True
         exc = None
     except ValueError as e:
@@ -129,6 +145,8 @@ def case_naturals(case):
     except Exception as e:
         accepted = None
         viols.append(_v("check_dm-exception", f"check_dm raised {type(e).__name__}: {e}"))
+    if not (np.array_equal(Dx, D) and np.array_equal(Sx, S)):
+        viols.append(_v("naturals-input-modified", f"check_dm changed the matrices it was asked to check (n={n}, layout mode {case['rep'] % 3})"))
     if accepted is not None and accepted != expect_accept:
         viols.append(_v("check_dm-range", f"check_dm accepted={accepted} but occupations [{occ.min():.6g}, {occ.max():.6g}] "
                         f"vs [-eps, occ_max+eps] = [{-eps:.3g}, {occ_max + eps:.9g}] ({exc})"))
